@@ -143,11 +143,63 @@ func paramWeb(p *Prog, prm *ssa.Parameter) map[ssa.Value]bool {
 			if fv, ok := ld.X.(*ssa.FreeVar); ok && web[fv] {
 				return true
 			}
+			if fa, ok := ld.X.(*ssa.FieldAddr); ok && web[fa] {
+				return true
+			}
 		}
 		return false
 	}
+	// struct fields of the package that are only ever given members of the web carry it too
+	// (the parameter handed to a small object whose methods use it)
+	type fieldUse struct {
+		addrs  []*ssa.FieldAddr
+		stores []*ssa.Store
+	}
+	fields := map[string]*fieldUse{}
+	for _, f := range p.Funcs() {
+		if !p.InScope(f) {
+			continue
+		}
+		for _, b := range f.Blocks {
+			for _, in := range b.Instrs {
+				fa, ok := in.(*ssa.FieldAddr)
+				if !ok || !sameBasic(fa.Type(), prm.Type()) {
+					continue
+				}
+				k := typeName(fa.X.Type()) + "." + fieldName(fa.X.Type(), fa.Field)
+				fu := fields[k]
+				if fu == nil {
+					fu = &fieldUse{}
+					fields[k] = fu
+				}
+				fu.addrs = append(fu.addrs, fa)
+				for _, ref := range *fa.Referrers() {
+					if st, ok := ref.(*ssa.Store); ok && st.Addr == ssa.Value(fa) {
+						fu.stores = append(fu.stores, st)
+					}
+				}
+			}
+		}
+	}
 	for changed := true; changed; {
 		changed = false
+		for _, fu := range fields {
+			if len(fu.stores) == 0 || web[fu.addrs[0]] {
+				continue
+			}
+			all := true
+			for _, st := range fu.stores {
+				if !is(st.Val) {
+					all = false
+				}
+			}
+			if all {
+				for _, fa := range fu.addrs {
+					web[fa] = true
+				}
+				changed = true
+			}
+		}
 		for _, f := range p.Funcs() {
 			if !p.InScope(f) {
 				continue
@@ -228,4 +280,10 @@ func intParam(f *ssa.Function) *ssa.Parameter {
 		}
 	}
 	return out
+}
+
+// sameBasic: pointer-to-t has the element type of u (both the same basic type).
+func sameBasic(ptr, u types.Type) bool {
+	pt, ok := ptr.Underlying().(*types.Pointer)
+	return ok && types.Identical(pt.Elem(), u)
 }
